@@ -5,9 +5,9 @@ import struct
 from lib.coqterm import cbool, cbytes, clist, cN, cnat, copt, hx, unhx
 
 ID = "C27"
-QUICK_N = 1800
-THOROUGH_N = 40000
-SHARD = 150
+QUICK_N = 800
+THOROUGH_N = 12000
+SHARD = 100
 COQ_PRELUDE = "From MV Require Import Model.DnsLayer.\n"
 RULE = ("A case is a whole connection: transport (client TCP 55% / UDP, upstream almost always the same), upstream address present "
         "88%, a scenario of 1-9 operations over 6 ids x 4 names (new query, query re-using a pending or answered id with another "
